@@ -124,6 +124,16 @@ def handle (s : DState) (fs : List String) : DState × String :=
     | some tt, some t, some b =>
       if declaredInOrder tt && decide (t < tt.length) then (s, if typeIs tt t b then "1" else "0") else (s, "bad-table")
     | _, _, _ => (s, "bad-op")
+  | ["reorder", comp, dpts] =>
+    -- the iteration order of dr.get_dependents(comp) changed (a set that grew: `find` registers a new dependent);
+    -- same world, same state, other order of the same dependents
+    match decNat comp, decNats dpts with
+    | some c, some dp =>
+      let n := s.w.node c
+      if c < s.w.nodes.length && dp.all (fun d => n.dependents.contains d) && n.dependents.all (fun d => dp.contains d) then
+        (⟨⟨s.w.nodes.set c { n with dependents := dp }, s.w.enabled⟩, s.st⟩, "ok")
+      else (s, "bad-reorder")
+    | _, _ => (s, "bad-op")
   | "find" :: comp :: flag :: pats =>
     match decNat comp, listOpt (pats.map decStr) with
     | some c, some ps =>
